@@ -1,5 +1,7 @@
 import TF.Proofs.PolyMul
 import TF.Proofs.PolySpecNtt
+import TF.Proofs.PolyNttBridge
+import TF.Proofs.PolyNttBridgeX
 /-!
 # C07 — every polynomial multiplication strategy returns the exact ring product
 
@@ -17,6 +19,10 @@ operands); `denote : List K → K[X]` is the polynomial it stands for.  A result
   `n` points `pts n i`, its panic behaviour depends on the length only, and `intt ∘ ntt = id`.  These are the theorems
   `ntt_eq_dft` / `intt_ntt` of property C06 for the Rust NTT.  Under that hypothesis the statements are of the form
   "whenever the operation returns, it returns the product"; the NTT-free arms never panic (separate theorems).
+* The hypothesis `TransformSpec` is discharged for the executable model of the Rust in-place NTT (`TF/Model/Ntt.lean`,
+  property C06) in the sections `BField` / `XField` at the end: `ntt_model_transform_spec` (any field),
+  `primitive_roots_rootOK` (the translated table), and the unconditional corollaries `…_bfield_spec`, `…_xfield_spec`,
+  `ntt_multiply_bx_spec`, `ntt_multiply_xb_spec` about the exact terms the driver evaluates on canonical values.
 * `numThreads` (the value of `available_parallelism()`) is universally quantified, including 0; termination of the
   chunked loop for every value is part of the definition being accepted by Lean (well-founded recursion on the
   number of remaining products).
@@ -273,5 +279,340 @@ example : RootCompat (RingHom.id ℚ) exampleRoot exampleRoot := by
   intro n; cases h : exampleRoot n <;> simp
 
 end Mixed
+
+/-! ### the base field, unconditionally: the products on top of the model of the Rust in-place NTT (property C06)
+
+`bNtt = nttTransform bOps primitiveRoot` wraps `TF.Model.Ntt.ntt` / `intt` — the executable model of the loops of
+`math/ntt.rs` (bit-reversal swap loop, one butterfly pass per stage, root from the translated table `PRIMITIVE_ROOTS`)
+— as the transform parameter; this is the transform the driver runs for the family `poly` (`TB`).  `bfieldOps` is the
+integer arithmetic modulo `P` on naturals (`TF/Spec/Field.lean`; its agreement with `BFieldElement` is C01's
+`field_iso`).  `bdenote a` is the polynomial over `ZMod P` with coefficients `a` read modulo `P`; `CanonL a` says that
+all entries are canonical (`< P`).  No `TransformSpec` / `RootOK` hypothesis is left: they are theorems
+(`ntt_model_transform_spec`, `primitive_roots_rootOK`) obtained from C06's `ntt_eq_dft` / `intt_ntt` /
+`primitive_roots_table`.  Every result is canonical, so it is determined as a list of naturals up to stored leading
+zeros. -/
+section BField
+open TF.Gen TF.NttProofs TF.Model.Poly.Hom
+
+/-- the polynomial over `ZMod P` a list of naturals stands for -/
+noncomputable def bdenote (a : List Nat) : (ZMod P)[X] := denote (a.map zc)
+
+/-- all entries canonical -/
+def CanonL (a : List Nat) : Prop := ∀ x ∈ a, x < P
+
+/-- `RootOK` for the real table: the root tabulated in `PRIMITIVE_ROOTS` for `2^(k+1)`, read in `ZMod P`, has
+    `2^k`-th power `−1` — for the look-up of the NTT model (`primitiveRoot`) and for `bfieldOps.rootOfUnity`,
+    which agree on every argument -/
+theorem primitive_roots_rootOK :
+    RootOK zRoot ∧ RootOK (fun n => (TF.bfieldOps.rootOfUnity n).map zc) ∧
+    ∀ n, TF.bfieldOps.rootOfUnity n = TF.Model.Ntt.primitiveRoot n :=
+  ⟨zRoot_ok, bfieldRoot_ok, bfieldRoot_eq⟩
+example : zRoot (2 ^ (0 + 1)) = some ((18446744069414584320 : ℕ) : ZMod P) := by
+  have : TF.Model.Ntt.primitiveRoot (2 ^ (0 + 1)) = some 18446744069414584320 := by decide
+  rw [zRoot, this]; rfl
+
+/-- **the model of the Rust in-place NTT is an evaluation / interpolation pair**: over every field `K`, run with the
+    ring operations of `K`, any `inverse`/`inverse_or_zero` that invert, and any root table with `RootOK`:
+    `ntt` evaluates at `pts n i = ω_n^i`, panics depending on the length only, and `intt ∘ ntt = id` -/
+theorem ntt_model_transform_spec (inv : K → Option K) (inv0 : K → K) (hI : InvOK inv inv0) (hroot : RootOK root) :
+    TransformSpec (nttTransform (ringOps K inv inv0) root) (rootPts root) :=
+  nttTransform_spec inv inv0 root hI hroot
+example : InvOK zinv zinv0 ∧ RootOK zRoot := ⟨zInvOK, zRoot_ok⟩
+
+/-- … in particular over `ZMod P` with the translated table — no hypothesis left -/
+theorem ntt_model_transform_spec_bfield : TransformSpec zNtt (rootPts zRoot) := zNtt_spec
+example : zNtt.ntt [] = some [] := by
+  have : TF.Model.Ntt.primitiveRoot 0 = some 1 := by decide
+  simp [zNtt, nttTransform, ntt_empty, zRoot, this]
+
+/-- the transform on canonical values (the one the driver runs) is the transform over `ZMod P` read through
+    `Nat.cast`, and its inverse returns canonical values -/
+theorem bNtt_is_zNtt (xs : List Nat) :
+    (bNtt.ntt xs).map (List.map zc) = zNtt.ntt (xs.map zc) ∧ (bNtt.intt xs).map (List.map zc) = zNtt.intt (xs.map zc) ∧
+    ∀ ys, bNtt.intt xs = some ys → CanonL ys :=
+  ⟨(bNtt_cast xs).1, (bNtt_cast xs).2, bNtt_intt_canon xs⟩
+example : bNtt.ntt [1, 4, 0, 0] = some [5, 1125899906842625, 18446744069414584318, 18445618169507741698] := by
+  decide +kernel
+
+theorem bdenote_eq (r : List Nat) : bdenote r = denote (r.map zc) := rfl
+
+/-- **`fast_multiply` over `BFieldElement`**: on canonical operands of every degree and storage, whenever it returns
+    it returns canonical coefficients of the product in `ZMod P[X]` -/
+theorem fast_multiply_bfield_spec (a b r : List Nat) (ha : CanonL a) (hb : CanonL b)
+    (h : fastMultiply TF.bfieldOps bNtt a b = some r) : bdenote r = bdenote a * bdenote b ∧ CanonL r := by
+  have hm := fastMultiply_map bfield_opsMap bNtt_transMap a b ha hb
+  rw [h] at hm
+  exact ⟨fast_multiply_spec zRoot zNtt_spec _ _ _ hm.symm,
+    fastMultiply_ok bNtt_transMap a b r h⟩
+example : fastMultiply TF.bfieldOps bNtt [1, 1, 0] [2] = some [2, 2] := by decide +kernel
+
+/-- `multiply` over `BFieldElement`, every threshold -/
+theorem multiply_bfield_spec (threshold : Int) (a b r : List Nat) (ha : CanonL a) (hb : CanonL b)
+    (h : multiply TF.bfieldOps threshold bNtt a b = some r) : bdenote r = bdenote a * bdenote b ∧ CanonL r := by
+  have hm := multiply_map bfield_opsMap bNtt_transMap threshold a b ha hb
+  rw [h] at hm
+  exact ⟨multiply_spec zRoot zNtt_spec threshold _ _ _ hm.symm,
+    multiply_ok bfield_opsMap bNtt_transMap threshold a b r h⟩
+example : multiply TF.bfieldOps 1 bNtt [1, 1] [P - 1, 1] = some [P - 1, 0, 1] := by decide +kernel
+
+/-- `fast_square` over `BFieldElement` -/
+theorem fast_square_bfield_spec (p r : List Nat) (hp : CanonL p)
+    (h : fastSquare TF.bfieldOps bNtt p = some r) : bdenote r = bdenote p ^ 2 ∧ CanonL r := by
+  have hm := fastSquare_map bfield_opsMap bNtt_transMap p hp
+  rw [h] at hm
+  exact ⟨fast_square_spec zRoot zNtt_spec _ _ hm.symm,
+    fastSquare_ok bfield_opsMap bNtt_transMap p r h⟩
+example : fastSquare TF.bfieldOps bNtt [1, 1, 0] = some [1, 2, 1] := by decide +kernel
+
+/-- `square` over `BFieldElement`, every cut-off -/
+theorem square_bfield_spec (cutoff : Nat) (p r : List Nat) (hp : CanonL p)
+    (h : square TF.bfieldOps cutoff bNtt p = some r) : bdenote r = bdenote p ^ 2 ∧ CanonL r := by
+  have hm := square_map bfield_opsMap bNtt_transMap cutoff p hp
+  rw [h] at hm
+  exact ⟨square_spec zRoot zNtt_spec cutoff _ _ hm.symm,
+    square_ok bfield_opsMap bNtt_transMap cutoff p r h⟩
+example : square TF.bfieldOps 2 bNtt [1, 1] = some [1, 2, 1] ∧ square TF.bfieldOps 64 bNtt [1, 1] = some [1, 2, 1] := by
+  decide +kernel
+
+/-- `fast_pow` over `BFieldElement`, every exponent, cut-off and threshold -/
+theorem fast_pow_bfield_spec (sqCutoff : Nat) (threshold : Int) (p : List Nat) (e : Nat) (r : List Nat)
+    (hp : CanonL p) (h : fastPow TF.bfieldOps sqCutoff threshold bNtt p e = some r) :
+    bdenote r = bdenote p ^ e ∧ CanonL r := by
+  obtain ⟨hm, hok⟩ := fastPow_map bfield_opsMap bNtt_transMap sqCutoff threshold p hp e
+  rw [h] at hm
+  exact ⟨fast_pow_spec zRoot zNtt_spec sqCutoff threshold _ e _ hm.symm, hok r h⟩
+example : fastPow TF.bfieldOps 0 0 bNtt [1, 1] 3 = some [1, 3, 3, 1] := by decide +kernel
+
+theorem map_bdenote (factors : List (List Nat)) :
+    (factors.map (List.map zc)).map denote = factors.map bdenote := by
+  simp [List.map_map, Function.comp_def, bdenote]
+
+/-- `batch_multiply` over `BFieldElement`: the product of all factors, any list, any threshold -/
+theorem batch_multiply_bfield_spec (threshold : Int) (factors : List (List Nat)) (r : List Nat)
+    (hf : ∀ p ∈ factors, CanonL p) (h : batchMultiply TF.bfieldOps threshold bNtt factors = some r) :
+    bdenote r = (factors.map bdenote).prod ∧ CanonL r := by
+  obtain ⟨hm, hok⟩ := batchMultiply_map bfield_opsMap bNtt_transMap threshold factors hf
+  rw [h] at hm
+  refine ⟨?_, hok r h⟩
+  rw [bdenote_eq, batch_multiply_spec zRoot zNtt_spec threshold _ _ hm.symm, map_bdenote]
+example : batchMultiply TF.bfieldOps 0 bNtt [[1, 1], [1, 1], [P - 1, 1]] = some [P - 1, P - 1, 1, 1] := by
+  decide +kernel
+
+/-- `par_batch_multiply` over `BFieldElement`: every thread count -/
+theorem par_batch_multiply_bfield_spec (threshold : Int) (numThreads : Nat) (factors : List (List Nat)) (r : List Nat)
+    (hf : ∀ p ∈ factors, CanonL p) (h : parBatchMultiply TF.bfieldOps threshold bNtt numThreads factors = some r) :
+    bdenote r = (factors.map bdenote).prod ∧ CanonL r := by
+  obtain ⟨hm, hok⟩ := parBatchMultiply_map bfield_opsMap bNtt_transMap threshold numThreads factors hf
+  rw [h] at hm
+  refine ⟨?_, hok r h⟩
+  rw [bdenote_eq, par_batch_multiply_spec zRoot zNtt_spec threshold numThreads _ _ hm.symm, map_bdenote]
+example : parBatchMultiply TF.bfieldOps 0 bNtt 2 [[1, 1], [1, 1], [P - 1, 1]] = some [P - 1, P - 1, 1, 1] := by
+  decide +kernel
+
+/-- **no panic**: `fast_multiply` over `BFieldElement` returns on all operands whose transform length
+    `next_power_of_two(deg a + deg b + 1)` is at most `2^31` (the NTT of C06 is defined on every such length) -/
+theorem fast_multiply_bfield_total (a b : List Nat)
+    (h : nextPowerOfTwo ((Model.Poly.degree TF.bfieldOps a + Model.Poly.degree TF.bfieldOps b).toNat + 1) ≤ 2^31) :
+    (fastMultiply TF.bfieldOps bNtt a b).isSome := by
+  obtain ⟨k, hk, hn⟩ := nextPowerOfTwo_le_pow _ 31 h
+  exact fastMultiply_isSome_of _ _ a b (by rw [hn]; exact bNtt_definedAt k hk)
+example : nextPowerOfTwo ((Model.Poly.degree TF.bfieldOps [1, 1] + Model.Poly.degree TF.bfieldOps [0, 5]).toNat + 1) ≤ 2^31 := by
+  decide +kernel
+
+/-- no panic for `fast_square` over `BFieldElement` up to transform length `2^31` -/
+theorem fast_square_bfield_total (p : List Nat)
+    (h : nextPowerOfTwo (2 * ((Model.Poly.normalize TF.bfieldOps p).length - 1) + 1) ≤ 2^31) :
+    (fastSquare TF.bfieldOps bNtt p).isSome := by
+  obtain ⟨k, hk, hn⟩ := nextPowerOfTwo_le_pow _ 31 h
+  exact fastSquare_isSome_of _ _ p (by rw [hn]; exact bNtt_definedAt k hk)
+example : nextPowerOfTwo (2 * ((Model.Poly.normalize TF.bfieldOps [1, 1, 0]).length - 1) + 1) ≤ 2^31 := by
+  decide +kernel
+
+end BField
+
+/-! ### the extension field, unconditionally
+
+`ntt::<XFieldElement>` multiplies by base-field twiddles (`FF: MulAssign<BFieldElement>`); `algOps L` are these
+operations for a field extension `L` of `ZMod P`.  `XK = (ZMod P)[X]/(X³ − X + 1)` is the field of `XFieldElement`
+(irreducibility: C01's `shah_irreducible`); `xc (c0, c1, c2) = c0 + c1·θ + c2·θ²`; `xfieldOps` is the arithmetic on
+triples of naturals of `TF/Spec/Field.lean`, `xNtt = nttTransform xOps primitiveRoot` the transform the driver runs
+(`TX`).  `xdenote a` is the polynomial over `XK` a list of triples stands for; `CanonL3 a`: all coordinates `< P`. -/
+section XField
+open TF.Gen TF.NttProofs TF.Model.Poly.Hom TF.Spec
+
+/-- the polynomial over `XK` a list of triples stands for -/
+noncomputable def xdenote (a : List X3) : XK[X] := denote (a.map xc)
+
+/-- all entries canonical triples -/
+def CanonL3 (a : List X3) : Prop := ∀ x ∈ a, Canon3 x
+
+theorem xdenote_eq (r : List X3) : xdenote r = denote (r.map xc) := rfl
+
+/-- **the model of the Rust NTT with base-field twiddles is an evaluation / interpolation pair over every field
+    extension `L` of the base field**, at the images of the powers of the tabulated roots -/
+theorem ntt_model_transform_spec_extension (L : Type) [Field L] [Algebra (ZMod P) L] :
+    TransformSpec (nttTransform (algOps L) zRoot) (rootPts (algRoot L)) := algNtt_spec L
+example : TransformSpec xkNtt (rootPts (algRoot XK)) := ntt_model_transform_spec_extension XK
+
+/-- the records the driver runs for `x` correspond to the field `XK` under `xc`: arithmetic on triples is the field
+    arithmetic (zero test on canonical triples), the transform on triples is the model NTT over `XK` -/
+theorem xfield_corresponds : OpsMap TF.xfieldOps FX xc Canon3 ∧ TransMap xNtt xkNtt xc Canon3 :=
+  ⟨xfield_opsMap, xNtt_transMap⟩
+example : xc (0, 1, 0) ^ 3 - xc (0, 1, 0) + 1 = 0 := by
+  have : xc (0, 1, 0) = θ := by simp [xc]
+  rw [this]; exact θ_rel
+
+/-- `fast_multiply` over `XFieldElement` -/
+theorem fast_multiply_xfield_spec (a b r : List X3) (ha : CanonL3 a) (hb : CanonL3 b)
+    (h : fastMultiply TF.xfieldOps xNtt a b = some r) : xdenote r = xdenote a * xdenote b ∧ CanonL3 r := by
+  have hm := fastMultiply_map xfield_opsMap xNtt_transMap a b ha hb
+  rw [h] at hm
+  exact ⟨fast_multiply_spec (algRoot XK) xkNtt_spec _ _ _ hm.symm, fastMultiply_ok xNtt_transMap a b r h⟩
+example : fastMultiply TF.xfieldOps xNtt [(1,0,0),(0,1,0)] [(0,0,1),(1,0,0)] = some [(0,0,1),(0,1,0),(0,1,0)] := by
+  decide +kernel
+
+/-- `multiply` over `XFieldElement`, every threshold -/
+theorem multiply_xfield_spec (threshold : Int) (a b r : List X3) (ha : CanonL3 a) (hb : CanonL3 b)
+    (h : multiply TF.xfieldOps threshold xNtt a b = some r) : xdenote r = xdenote a * xdenote b ∧ CanonL3 r := by
+  have hm := multiply_map xfield_opsMap xNtt_transMap threshold a b ha hb
+  rw [h] at hm
+  exact ⟨multiply_spec (algRoot XK) xkNtt_spec threshold _ _ _ hm.symm,
+    multiply_ok xfield_opsMap xNtt_transMap threshold a b r h⟩
+example : multiply TF.xfieldOps 1 xNtt [(1,0,0),(0,1,0)] [(0,0,1),(1,0,0)] = some [(0,0,1),(0,1,0),(0,1,0)] := by
+  decide +kernel
+
+/-- `fast_square` over `XFieldElement` -/
+theorem fast_square_xfield_spec (p r : List X3) (hp : CanonL3 p)
+    (h : fastSquare TF.xfieldOps xNtt p = some r) : xdenote r = xdenote p ^ 2 ∧ CanonL3 r := by
+  have hm := fastSquare_map xfield_opsMap xNtt_transMap p hp
+  rw [h] at hm
+  exact ⟨fast_square_spec (algRoot XK) xkNtt_spec _ _ hm.symm, fastSquare_ok xfield_opsMap xNtt_transMap p r h⟩
+example : fastSquare TF.xfieldOps xNtt [(0,1,0),(0,0,1)]
+    = some [(0,0,1), (18446744069414584319,2,0), (0,18446744069414584320,1)] := by decide +kernel
+
+/-- `square` over `XFieldElement`, every cut-off -/
+theorem square_xfield_spec (cutoff : Nat) (p r : List X3) (hp : CanonL3 p)
+    (h : square TF.xfieldOps cutoff xNtt p = some r) : xdenote r = xdenote p ^ 2 ∧ CanonL3 r := by
+  have hm := square_map xfield_opsMap xNtt_transMap cutoff p hp
+  rw [h] at hm
+  exact ⟨square_spec (algRoot XK) xkNtt_spec cutoff _ _ hm.symm, square_ok xfield_opsMap xNtt_transMap cutoff p r h⟩
+example : square TF.xfieldOps 2 xNtt [(0,1,0),(0,0,1)]
+    = some [(0,0,1), (18446744069414584319,2,0), (0,18446744069414584320,1)] := by decide +kernel
+
+/-- `fast_pow` over `XFieldElement` -/
+theorem fast_pow_xfield_spec (sqCutoff : Nat) (threshold : Int) (p : List X3) (e : Nat) (r : List X3)
+    (hp : CanonL3 p) (h : fastPow TF.xfieldOps sqCutoff threshold xNtt p e = some r) :
+    xdenote r = xdenote p ^ e ∧ CanonL3 r := by
+  obtain ⟨hm, hok⟩ := fastPow_map xfield_opsMap xNtt_transMap sqCutoff threshold p hp e
+  rw [h] at hm
+  exact ⟨fast_pow_spec (algRoot XK) xkNtt_spec sqCutoff threshold _ e _ hm.symm, hok r h⟩
+example : fastPow TF.xfieldOps 0 0 xNtt [(0,1,0),(1,0,0)] 3
+    = some [(18446744069414584320,1,0), (0,0,3), (0,3,0), (1,0,0)] := by decide +kernel
+
+theorem map_xdenote (factors : List (List X3)) :
+    (factors.map (List.map xc)).map denote = factors.map xdenote := by
+  simp [List.map_map, Function.comp_def, xdenote]
+
+/-- `batch_multiply` over `XFieldElement` -/
+theorem batch_multiply_xfield_spec (threshold : Int) (factors : List (List X3)) (r : List X3)
+    (hf : ∀ p ∈ factors, CanonL3 p) (h : batchMultiply TF.xfieldOps threshold xNtt factors = some r) :
+    xdenote r = (factors.map xdenote).prod ∧ CanonL3 r := by
+  obtain ⟨hm, hok⟩ := batchMultiply_map xfield_opsMap xNtt_transMap threshold factors hf
+  rw [h] at hm
+  refine ⟨?_, hok r h⟩
+  rw [xdenote_eq, batch_multiply_spec (algRoot XK) xkNtt_spec threshold _ _ hm.symm, map_xdenote]
+example : batchMultiply TF.xfieldOps 0 xNtt [[(0,1,0),(1,0,0)], [(0,1,0),(1,0,0)], [(0,0,1)]]
+    = some [(0,18446744069414584320,1), (18446744069414584319,2,0), (0,0,1)] := by decide +kernel
+
+/-- `par_batch_multiply` over `XFieldElement`, every thread count -/
+theorem par_batch_multiply_xfield_spec (threshold : Int) (numThreads : Nat) (factors : List (List X3)) (r : List X3)
+    (hf : ∀ p ∈ factors, CanonL3 p) (h : parBatchMultiply TF.xfieldOps threshold xNtt numThreads factors = some r) :
+    xdenote r = (factors.map xdenote).prod ∧ CanonL3 r := by
+  obtain ⟨hm, hok⟩ := parBatchMultiply_map xfield_opsMap xNtt_transMap threshold numThreads factors hf
+  rw [h] at hm
+  refine ⟨?_, hok r h⟩
+  rw [xdenote_eq, par_batch_multiply_spec (algRoot XK) xkNtt_spec threshold numThreads _ _ hm.symm, map_xdenote]
+example : parBatchMultiply TF.xfieldOps 0 xNtt 2 [[(0,1,0),(1,0,0)], [(0,1,0),(1,0,0)], [(0,0,1)]]
+    = some [(0,18446744069414584320,1), (18446744069414584319,2,0), (0,0,1)] := by decide +kernel
+
+/-- no panic for `fast_multiply` / `fast_square` over `XFieldElement` up to transform length `2^31` -/
+theorem fast_multiply_xfield_total (a b : List X3)
+    (h : nextPowerOfTwo ((Model.Poly.degree TF.xfieldOps a + Model.Poly.degree TF.xfieldOps b).toNat + 1) ≤ 2^31) :
+    (fastMultiply TF.xfieldOps xNtt a b).isSome := by
+  obtain ⟨k, hk, hn⟩ := nextPowerOfTwo_le_pow _ 31 h
+  exact fastMultiply_isSome_of _ _ a b (by rw [hn]; exact xNtt_definedAt k hk)
+example : nextPowerOfTwo ((Model.Poly.degree TF.xfieldOps [(1,0,0),(0,1,0)]
+    + Model.Poly.degree TF.xfieldOps [(0,0,1),(1,0,0)]).toNat + 1) ≤ 2^31 := by decide +kernel
+
+theorem fast_square_xfield_total (p : List X3)
+    (h : nextPowerOfTwo (2 * ((Model.Poly.normalize TF.xfieldOps p).length - 1) + 1) ≤ 2^31) :
+    (fastSquare TF.xfieldOps xNtt p).isSome := by
+  obtain ⟨k, hk, hn⟩ := nextPowerOfTwo_le_pow _ 31 h
+  exact fastSquare_isSome_of _ _ p (by rw [hn]; exact xNtt_definedAt k hk)
+example : nextPowerOfTwo (2 * ((Model.Poly.normalize TF.xfieldOps [(0,1,0),(0,0,1)]).length - 1) + 1) ≤ 2^31 := by
+  decide +kernel
+
+/-! #### operands over different fields (`B × X`, `X × B`), each transformed over its own field
+
+The driver's `mulBX a b = xscale a b` and `mulXB a b = xscale b a` are the mixed coefficient products; the left
+operand is transformed with its own transform (`bNtt` resp. `xNtt`), the result with `xNtt`. -/
+
+theorem bdenote_map_phi (a : List Nat) : denote ((a.map zc).map φ) = (bdenote a).map φ := by
+  rw [denote_map]; rfl
+
+/-- `fast_multiply` / `multiply` (every threshold) with a `BFieldElement` polynomial on the left and an
+    `XFieldElement` polynomial on the right -/
+theorem ntt_multiply_bx_spec (threshold : Int) (a : List Nat) (b r : List X3) (ha : CanonL a) (hb : CanonL3 b) :
+    (fastMultiplyG TF.bfieldOps TF.xfieldOps (fun x y => xscale x y) bNtt xNtt xNtt a b = some r →
+      xdenote r = (bdenote a).map φ * xdenote b ∧ CanonL3 r) ∧
+    (multiplyG TF.bfieldOps TF.xfieldOps TF.xfieldOps (fun x y => xscale x y) threshold bNtt xNtt xNtt a b = some r →
+      xdenote r = (bdenote a).map φ * xdenote b ∧ CanonL3 r) := by
+  constructor
+  · intro h
+    have hm := fastMultiplyG_map (mul' := fun x y => φ x * (RingHom.id XK) y) bfield_opsMap xfield_opsMap
+      bNtt_transMap xNtt_transMap xNtt_transMap xc_mulBX a b ha hb
+    rw [h, fastMultiplyG_eq_of_hom (algRoot XK) zRoot (algRoot XK) φ (RingHom.id XK) zNtt xkNtt xkNtt
+      zNtt_to_xk xkNtt_id] at hm
+    refine ⟨?_, fastMultiplyG_ok xNtt_transMap a b r h⟩
+    rw [xdenote_eq, fast_multiply_spec (algRoot XK) xkNtt_spec _ _ _ hm.symm, bdenote_map_phi]
+    simp [xdenote]
+  · intro h
+    have hm := multiplyG_map (mul' := fun x y => φ x * (RingHom.id XK) y) bfield_opsMap xfield_opsMap xfield_opsMap
+      bNtt_transMap xNtt_transMap xNtt_transMap xc_mulBX threshold a b ha hb
+    rw [h, multiplyG_eq_of_hom (algRoot XK) zRoot (algRoot XK) φ (RingHom.id XK) zNtt xkNtt xkNtt
+      zNtt_to_xk xkNtt_id] at hm
+    refine ⟨?_, multiplyG_ok xfield_opsMap xNtt_transMap (fun x y => canon3_mod _ _ _) threshold a b r h⟩
+    rw [xdenote_eq, multiply_spec (algRoot XK) xkNtt_spec threshold _ _ _ hm.symm, bdenote_map_phi]
+    simp [xdenote]
+example : fastMultiplyG TF.bfieldOps TF.xfieldOps (fun x y => xscale x y) bNtt xNtt xNtt [1, 2] [(0,0,1),(1,0,0)]
+    = some [(0,0,1), (1,0,2), (2,0,0)] := by decide +kernel
+
+/-- … and with the `XFieldElement` polynomial on the left -/
+theorem ntt_multiply_xb_spec (threshold : Int) (a : List X3) (b : List Nat) (r : List X3) (ha : CanonL3 a) (hb : CanonL b) :
+    (fastMultiplyG TF.xfieldOps TF.bfieldOps (fun x y => xscale y x) xNtt bNtt xNtt a b = some r →
+      xdenote r = xdenote a * (bdenote b).map φ ∧ CanonL3 r) ∧
+    (multiplyG TF.xfieldOps TF.bfieldOps TF.xfieldOps (fun x y => xscale y x) threshold xNtt bNtt xNtt a b = some r →
+      xdenote r = xdenote a * (bdenote b).map φ ∧ CanonL3 r) := by
+  constructor
+  · intro h
+    have hm := fastMultiplyG_map (mul' := fun x y => (RingHom.id XK) x * φ y) xfield_opsMap bfield_opsMap
+      xNtt_transMap bNtt_transMap xNtt_transMap xc_mulXB a b ha hb
+    rw [h, fastMultiplyG_eq_of_hom (algRoot XK) (algRoot XK) zRoot (RingHom.id XK) φ xkNtt zNtt xkNtt
+      xkNtt_id zNtt_to_xk] at hm
+    refine ⟨?_, fastMultiplyG_ok xNtt_transMap a b r h⟩
+    rw [xdenote_eq, fast_multiply_spec (algRoot XK) xkNtt_spec _ _ _ hm.symm, bdenote_map_phi]
+    simp [xdenote]
+  · intro h
+    have hm := multiplyG_map (mul' := fun x y => (RingHom.id XK) x * φ y) xfield_opsMap bfield_opsMap xfield_opsMap
+      xNtt_transMap bNtt_transMap xNtt_transMap xc_mulXB threshold a b ha hb
+    rw [h, multiplyG_eq_of_hom (algRoot XK) (algRoot XK) zRoot (RingHom.id XK) φ xkNtt zNtt xkNtt
+      xkNtt_id zNtt_to_xk] at hm
+    refine ⟨?_, multiplyG_ok xfield_opsMap xNtt_transMap (fun x y => canon3_mod _ _ _) threshold a b r h⟩
+    rw [xdenote_eq, multiply_spec (algRoot XK) xkNtt_spec threshold _ _ _ hm.symm, bdenote_map_phi]
+    simp [xdenote]
+example : multiplyG TF.xfieldOps TF.bfieldOps TF.xfieldOps (fun x y => xscale y x) 1 xNtt bNtt xNtt [(0,0,1),(1,0,0)] [1, 2]
+    = some [(0,0,1), (1,0,2), (2,0,0)] := by decide +kernel
+
+end XField
 
 end TF.C07
